@@ -39,5 +39,8 @@ func TestDebugRun(t *testing.T) {
 	if r.Viol != nil {
 		fmt.Printf("VIOLATION %s\n  %s\n", r.Viol.Key(), r.Viol.Msg)
 	}
+	for _, o := range r.Others {
+		fmt.Printf("OTHER %s\n  %s\n", o.Key(), o.Msg)
+	}
 	fmt.Println("probes", r.Probes, "faults", r.Faults)
 }
